@@ -205,6 +205,18 @@ def stream_items(tier, seed, want):
         for g in pool:
             for ek in ('simple', 'cheap', 'empty'):
                 add(g, inp01, ek=ek)
+    if 'state' in want:
+        pool = base[:500] + [g for g in c01 if gen.size(g) >= 2 and ('rewind' in gen.ops_of(g) or 'andis' in gen.ops_of(g))][:200]
+        for g in pool:
+            for g2 in gen.insert_at_nodes(g, lambda a: ('mwstate', a))[:4]:
+                add(g2, inp01)
+                for g3 in gen.insert_at_nodes(g2, lambda a: ('withstate', a), pred=lambda t: t[0] != 'mwstate')[:2]:
+                    add(g3, inp01)
+        for g in pool[:150]:
+            for w in gen.RECOVERIES[:3]:
+                for g2 in gen.insert_at_nodes(g, w)[:2]:
+                    for g3 in gen.insert_at_nodes(g2, lambda a: ('mwstate', a))[:2]:
+                        add(g3, inp01)
     if 'ctx' in want:
         for g in gen.ctx_family():
             add(g, inputs_all(5, [gen.A, gen.B, 50, 51]))
@@ -329,8 +341,184 @@ class C04(Prop):
                 stats['samples'].append({'case': grammar_of(line), 'input_index': int(k), 'parse': ip, 'check': ic})
 
 
-PROPS = {p.name: p for p in [C01(), ALL(), C04()]}
-for _s in ['c01', 'c02', 'emit', 'rec', 'deco', 'ctx', 'ek']:
+
+def emits_match(errs, emits):
+    """implementation errors vs spec emissions: user emissions must be identical, a recovered error is abstract"""
+    if len(errs) != len(emits):
+        return False
+    return all(e == s or s.startswith('rec@') for e, s in zip(errs, emits))
+
+
+class SpecProp(Prop):
+    """properties decided against the PEG reading on a set of streams"""
+    streams = []
+    quick_cap = 8000
+    with_errors = False       # compare the secondary errors of accepted parses with the spec's emissions
+    with_insp = False         # compare the final inspector state
+    bins = ['h_str_rich', 'h_slice_rich']
+    ek_filter = ('rich',)
+
+    def cases(self, tier, seed):
+        items = [it for it in stream_items(tier, seed, self.streams) if it[2].get('ek', 'rich') in self.ek_filter]
+        rng = random.Random(seed)
+        if tier == 'quick' and len(items) > self.quick_cap:
+            rng.shuffle(items)
+            items = items[:self.quick_cap]
+        lines = []
+        for n, (g, inputs, kw) in enumerate(items):
+            kw = dict(kw)
+            kind = kw.pop('kind', 'str' if n % 2 == 0 else 'slice')
+            lines.append(case_line(f's{n}', g, inputs, kind=kind, **kw))
+        return lines
+
+    def proj_impl(self, m):
+        if m['kind'] != 'R':
+            return proj_accept_value(m)
+        out = m['out']
+        r = ['R', out]
+        if self.with_errors:
+            r.append(tuple(m['errs']) if out is not None else None)
+        if self.with_insp:
+            r.append(m['insp'] if out is not None else None)
+        return tuple(r)
+
+    def holds(self, i, s):
+        """predicate on the implementation's observation `i` given the spec's result `s`"""
+        if s['kind'] == 'P':
+            return i['kind'] == 'P' and i['site'] == s['site']
+        if s['kind'] == 'OOF':
+            return True
+        if i['kind'] != 'R':
+            return False
+        if s['kind'] == 'fail':
+            return i['out'] is None
+        if i['out'] != s['val']:
+            return False
+        if self.with_errors and not emits_match(i['errs'], s['emits']):
+            return False
+        if self.with_insp and i['insp'] != s['insp']:
+            return False
+        return True
+
+    def compare(self, line, k, impl_M, model_M, spec_S):
+        im, mm, ss = parse_M(impl_M), parse_M(model_M), parse_S(spec_S)
+        corr = self.proj_impl(im) == self.proj_impl(mm)
+        return {'corr': corr, 'pred': self.holds(im, ss), 'why': self.why,
+                'outcome': im['kind'] + ('+' if im.get('out') is not None else '-') + ('e' if im.get('errs') and im.get('out') is not None else ''),
+                'nontrivial': is_nontrivial(line, k, None)}
+
+
+class C02(SpecProp):
+    name = 'C02'; module = 'C02'; claimed = True
+    title = 'repetition and separators: bounds, greediness, leading/trailing'
+    streams = ['c02']
+    why = 'items / count / remainder differ from the greedy bounded reading'
+    rule = ('iterators repeated/separated_by over all bounds 0..2 (+unbounded), lead/trail flags, sampled item and separator '
+            'grammars, every consumer (collect vec/string/count/unit, collect_exactly 0/2/3, foldl, foldr, foldl_with, '
+            'foldr_with, enumerate, plain parser), remainder observed through any().repeated().to_slice(); or_not/into_iter/then '
+            'iterators; configure/try_configure from context; nullable items (debug-assertion panics); all inputs over {a , b}')
+    level_text = ('machine loops refine the functional iterator protocol of the spec (Lean, all grammars/inputs); the protocol is '
+                  'characterised by chain predicates (greedy, possessive, bounds, separators); items, counts and remainders of the '
+                  'real crate compared with model and spec')
+
+
+class C03(SpecProp):
+    name = 'C03'; module = 'C03'; claimed = True
+    title = 'parse result contract'
+    streams = ['c01', 'c02', 'rec']
+    quick_cap = 9000
+    why = 'result contract violated'
+    rule = ('C01, C02 and recovery streams; inputs enumerated exhaustively up to the bound, so every one-token extension of an '
+            'accepted input below the bound is itself a case; observation = (has_output, has_errors, into_result is Ok)')
+    level_text = ('theorems on parse/check of the model: error-free output iff the grammar followed by end-of-input matches in the '
+                  'PEG reading (every token consumed), no-output implies an error, into_result consistency; the real ParseResult '
+                  'accessors compared on every case')
+
+    def compare(self, line, k, impl_M, model_M, spec_S):
+        im, mm, ss = parse_M(impl_M), parse_M(model_M), parse_S(spec_S)
+        if im['kind'] != 'R':
+            return {'corr': proj_accept_value(im) == proj_accept_value(mm), 'pred': ss['kind'] == 'P' and im.get('site') == ss.get('site'),
+                    'why': 'panic', 'outcome': im['kind'], 'nontrivial': False}
+        has_out, has_err = im['out'] is not None, bool(im['errs'])
+        ir = im.get('ir')
+        pred = True
+        why = []
+        if not has_out and not has_err:
+            pred = False; why.append('no output and no error')
+        if ir is not None and (ir == 'ok') != (has_out and not has_err):
+            pred = False; why.append('into_result inconsistent')
+        clean = has_out and not has_err
+        spec_clean = ss['kind'] == 'ok' and not ss['emits']
+        if ss['kind'] != 'OOF' and clean != spec_clean:
+            pred = False; why.append('error-free acceptance differs from "grammar then end matches the whole input"')
+        if ss['kind'] == 'ok' and not has_out:
+            pred = False; why.append('no output although the grammar matches')
+        if ss['kind'] == 'fail' and has_out:
+            pred = False; why.append('output although the grammar does not match')
+        corr = (mm['kind'] == 'R' and (mm['out'] is not None) == has_out and bool(mm['errs']) == has_err and mm.get('ir') == ir)
+        return {'corr': corr, 'pred': pred, 'why': '; '.join(why), 'outcome': ('O' if has_out else 'o') + ('E' if has_err else 'e'),
+                'nontrivial': is_nontrivial(line, k, None)}
+
+
+class C05(SpecProp):
+    name = 'C05'; module = 'C05'; claimed = True
+    title = 'backtracking is atomic'
+    streams = ['emit', 'rec', 'c01']
+    with_errors = True
+    with_insp = True
+    quick_cap = 9000
+    why = 'reported non-fatal errors / state differ from those of the surviving path'
+    rule = ('C01-class grammars with validate emitters and recover_with inserted at every node position (inside choices, '
+            'lookahead, and_is, rewind, optional), custom parsers that fail after consuming; observation = output + ordered list '
+            'of secondary errors + final inspector state')
+    level_text = ('refinement theorem: on success the secondary errors are exactly (in order) the emissions of the surviving path of '
+                  'the PEG reading, the inspector equals the one fed the consumed prefix; on failure the caller-visible list is only '
+                  'extended; error lists of the real crate compared with spec emissions')
+
+
+class C08(SpecProp):
+    name = 'C08'; module = 'C08'; claimed = True
+    title = 'error recovery'
+    streams = ['rec']
+    with_errors = True
+    quick_cap = 9000
+    why = 'recovery result differs from the recovery reading'
+    rule = ('C01-class grammars with recover_with(via_parser | skip_until | skip_then_retry_until) inserted at every node position; '
+            'observation = output + error list (recovered errors matched by position in the spec, by full content in the model)')
+    level_text = ('recover_with/strategies refine the recovery reading of the spec (transparent on success, one extra error on '
+                  'recovery, failure restores position); full error content compared between the real crate and the model')
+
+    def proj_impl(self, m):
+        if m['kind'] != 'R':
+            return proj_accept_value(m)
+        return ('R', m['out'], tuple(m['errs']))
+
+
+class C15(SpecProp):
+    name = 'C15'; module = 'C15'; claimed = True
+    title = 'context and configuration'
+    streams = ['ctx']
+    why = 'context delivered / configured parser differs from the lexical reading'
+    rule = ('length-prefixed, delimiter-echo and nested-provider families plus C01 grammars with context readers and providers '
+            '(with_ctx, ignore_with_ctx, then_with_ctx, map_ctx) inserted at node positions; outputs embed the observed context')
+    level_text = ('refinement theorem: the machine (which swaps a context reference) delivers the lexically nearest provider of the '
+                  'PEG reading; configure/try_configure equal the statically configured parser; outputs of the real crate compared')
+
+
+class C18(SpecProp):
+    name = 'C18'; module = 'C18'; claimed = True
+    title = 'user state and inspectors'
+    streams = ['state']
+    with_insp = True
+    why = 'observed inspector state differs from "fed exactly the tokens before the position"'
+    rule = ('C01/C02/recovery grammars with state observations (map_with reading the inspector) inserted at node positions and '
+            'with_state scopes; observation = every observed (count, hash) in the output and the final state of parse_with_state')
+    level_text = ('refinement theorem threads the inspector: every observation equals the inspector fed the tokens consumed on the '
+                  'surviving path; with_state starts fresh and leaves the outer inspector untouched; real inspector compared')
+
+
+PROPS = {p.name: p for p in [C01(), ALL(), C04(), C02(), C03(), C05(), C08(), C15(), C18()]}
+for _s in ['c01', 'c02', 'emit', 'rec', 'deco', 'ctx', 'ek', 'state']:
     PROPS['ALL_' + _s] = ALL([_s])
     PROPS['ALL_' + _s].name = 'ALL_' + _s
 
